@@ -87,6 +87,24 @@ func init() {
 
 func chordFn(c *Ctx, recv, name string) *Fn { return c.Func("chord", recv, name) }
 
+// checkSiteSet is checkSite for sites whose consequence is decided from path facts about the
+// call itself (FTrue / FFalse of s.call): how the test is written around the call - negated
+// with an early exit, or positive with the action nested - does not matter then, only the set
+// the call selects does.
+func checkSiteSet(c *Ctx, rule string, fn *Fn, sites []*betweenSite, low, target, high string, incl bool, meaning string) *betweenSite {
+	s := findSite(sites, low, target, high)
+	if s != nil && s.neg {
+		cp := *s
+		cp.neg = false
+		for i, x := range sites {
+			if x == s {
+				sites[i] = &cp
+			}
+		}
+	}
+	return checkSite(c, rule, fn, sites, low, target, high, incl, false, meaning)
+}
+
 func checkSite(c *Ctx, rule string, fn *Fn, sites []*betweenSite, low, target, high string, incl, neg bool, meaning string) *betweenSite {
 	between := c.Func("spec/chord", "", "Between")
 	s := findSite(sites, low, target, high)
@@ -111,8 +129,8 @@ func runC01(c *Ctx) {
 	listFingerprintRule(c)
 	fs := chordFn(c, "LocalNode", "FindSuccessor")
 	sites := fs.betweenSites()
-	s1 := checkSite(c, "interval", fs, sites, pPred, pKey0, pSelf, true, false, "key is in our own range (predecessor, self]")
-	s2 := checkSite(c, "interval", fs, sites, pSelf, pKey0, pSucc, true, false, "key is in the successor's range (self, successor]")
+	s1 := checkSiteSet(c, "interval", fs, sites, pPred, pKey0, pSelf, true, "key is in our own range (predecessor, self]")
+	s2 := checkSiteSet(c, "interval", fs, sites, pSelf, pKey0, pSucc, true, "key is in the successor's range (self, successor]")
 	c.Floor("FindSuccessor interval sites", len(sites), 2)
 	// consequences
 	nret := 0
@@ -156,7 +174,7 @@ func runC01(c *Ctx) {
 	cp := chordFn(c, "LocalNode", "closestPrecedingNode")
 	csites := cp.betweenSites()
 	const pFinger = "lit.param#1.ID()"
-	s3 := checkSite(c, "interval", cp, csites, pSelf, pFinger, pKey0, false, false, "finger strictly precedes the key: finger in (self, key)")
+	s3 := checkSiteSet(c, "interval", cp, csites, pSelf, pFinger, pKey0, false, "finger strictly precedes the key: finger in (self, key)")
 	if s3 != nil {
 		// the finger is adopted only on the pass edge and iteration stops there
 		lit := s3.f
@@ -191,8 +209,14 @@ func runC01(c *Ctx) {
 	// fallback to the receiver when no finger precedes
 	fb := false
 	for _, r := range cp.Returns() {
-		if len(r.Results) == 1 && cp.Prov(r.Results[0]) == "recv" {
-			fb = true
+		if len(r.Results) == 1 {
+			// `return n` after the scan, or a result variable that starts as the receiver
+			// and is only overwritten by the adoption above
+			for _, alt := range splitAlts(cp.Prov(r.Results[0])) {
+				if alt == "recv" {
+					fb = true
+				}
+			}
 		}
 	}
 	c.Ob("finger-fallback", "closestPrecedingNode#fallback-self", cp.Body.Pos(), fb, "falls back to the receiver when no finger precedes the key (see C09 for the termination side)")
@@ -208,16 +232,23 @@ func runC01(c *Ctx) {
 		}
 		loopPos = fl.Pos()
 		init, ok1 := fl.Init.(*ast.AssignStmt)
-		cond, ok2 := fl.Cond.(*ast.BinaryExpr)
 		post, ok3 := fl.Post.(*ast.IncDecStmt)
-		if ok1 && ok2 && ok3 && len(init.Rhs) == 1 {
+		if ok1 && ok3 && fl.Cond != nil && len(init.Rhs) == 1 && len(init.Lhs) == 1 {
 			iv, _ := fr.ConstVal(init.Rhs[0])
-			cv, _ := fr.ConstVal(cond.Y)
-			if iv == "48" && cond.Op == token.GEQ && cv == "1" && post.Tok == token.DEC {
-				okScan = true
-			}
-			if iv == "48" && cond.Op == token.GTR && cv == "0" && post.Tok == token.DEC {
-				okScan = true
+			kv := fr.varOf(init.Lhs[0])
+			// the bound on k is one conjunct of the condition (a stop flag may be another)
+			for _, cj := range conjuncts(fl.Cond) {
+				cond, ok2 := ast.Unparen(cj).(*ast.BinaryExpr)
+				if !ok2 || kv == nil || fr.varOf(cond.X) != kv || fr.varOf(post.X) != kv {
+					continue
+				}
+				cv, _ := fr.ConstVal(cond.Y)
+				if iv == "48" && cond.Op == token.GEQ && cv == "1" && post.Tok == token.DEC {
+					okScan = true
+				}
+				if iv == "48" && cond.Op == token.GTR && cv == "0" && post.Tok == token.DEC {
+					okScan = true
+				}
 			}
 		}
 		return false
@@ -582,7 +613,7 @@ func runC05(c *Ctx) {
 	const pLow = "param#1.ID()|recv.ID()"
 	const pNew = "param#2.ID()"
 	sites := up.betweenSites()
-	s := checkSite(c, "interval", up, sites, pLow, pNew, pSelf, false, true, "skip the transfer unless the new predecessor lies strictly inside (low, self)")
+	s := checkSiteSet(c, "interval", up, sites, pLow, pNew, pSelf, false, "the transfer happens only when the new predecessor lies strictly inside (low, self)")
 	rk := up.CallsTo(false, "spec/chord.KVProvider.RangeKeys", "spec/chord.KV.RangeKeys")
 	c.Floor("transferKeysUpward RangeKeys sites", len(rk), 1)
 	for _, call := range rk {
@@ -893,18 +924,29 @@ func runC08(c *Ctx) {
 	rj := chordFn(c, "LocalNode", "RequestToJoin")
 	retryable := retryableSentinels(c)
 	nref := 0
-	for _, r := range rj.Returns() {
-		if len(r.Results) != 3 {
-			continue
+	// its own return statements, and those of literals nested in it (a check moved into an
+	// extracted helper is an invoked literal after normalisation)
+	ast.Inspect(rj.Body, func(n ast.Node) bool {
+		r, ok := n.(*ast.ReturnStmt)
+		if !ok {
+			return true
 		}
-		pv := rj.Prov(r.Results[2])
-		if !strings.HasPrefix(pv, "global:spec/chord.Err") {
-			continue
+		g := rj.enclosing(r)
+		for _, res := range r.Results {
+			if t := typeOf(g.Info, res); t == nil || !isErrorType(t) {
+				continue
+			}
+			for _, pv := range splitAlts(g.Prov(res)) {
+				if !strings.HasPrefix(pv, "global:spec/chord.Err") {
+					continue
+				}
+				name := strings.TrimPrefix(pv, "global:spec/chord.")
+				nref++
+				c.Ob("join-refusal", "RequestToJoin#returns-"+name, r.Pos(), retryable[name] || name == "ErrDuplicateJoinerID", "a refusal decided by RequestToJoin must be retryable (or the duplicate-id rejection of an invalid joiner)")
+			}
 		}
-		name := strings.TrimPrefix(pv, "global:spec/chord.")
-		nref++
-		c.Ob("join-refusal", "RequestToJoin#returns-"+name, r.Pos(), retryable[name] || name == "ErrDuplicateJoinerID", "a refusal decided by RequestToJoin must be retryable (or the duplicate-id rejection of an invalid joiner)")
-	}
+		return true
+	})
 	c.Floor("RequestToJoin sentinel returns", nref, 4)
 }
 
@@ -947,8 +989,12 @@ func runC09(c *Ctx) {
 	// functions whose result may be the receiver itself
 	mayReturnSelf := func(fn *Fn, idx int) bool {
 		for _, r := range fn.Returns() {
-			if idx < len(r.Results) && fn.Prov(r.Results[idx]) == "recv" {
-				return true
+			if idx < len(r.Results) {
+				for _, alt := range splitAlts(fn.Prov(r.Results[idx])) {
+					if alt == "recv" {
+						return true
+					}
+				}
 			}
 		}
 		return false
@@ -997,9 +1043,12 @@ func runC09(c *Ctx) {
 			}
 			l, r := types.ExprString(be.X), types.ExprString(be.Y)
 			lp, rp := fn.Prov(be.X), fn.Prov(be.Y)
-			isT := func(s string) bool { return s == want+".ID()" || s == want }
+			// the target by its spelling, or a local that holds the target's ID()
+			isT := func(s, p string) bool {
+				return s == want+".ID()" || s == want || p == pv+".ID()" && !strings.Contains(pv, "|")
+			}
 			isS := func(p string) bool { return p == self+".ID()" || p == self }
-			return (isT(l) && isS(rp)) || (isT(r) && isS(lp))
+			return (isT(l, lp) && isS(rp)) || (isT(r, rp) && isS(lp))
 		}
 		ok := false
 		decided := false
